@@ -41,6 +41,8 @@ THEOREMS = [
     'CpProofs.C05.C05X_exact_in_order',
     'CpProofs.C05.C05X_never_overreads',
     'CpProofs.C05.C05X_never_delivers_beyond_maxbytes',
+    'CpProofs.C05.C05F_never_overreads',
+    'CpProofs.C05.C05F_accounting',
     # around the reader (CpModel.ReaderProcess, CpProofs.C05Process)
     'CpProofs.C05.C05_process_skipped_iff',
     'CpProofs.C05.C05_process_411_iff',
@@ -88,7 +90,8 @@ LEVEL_TEXT = ('Proved in Lean, for every body, declared length (exact/shorter/lo
               'yields - also by a call that then raises 413 - is the next bytes of the body in order, an error-free '
               'history delivers every byte exactly once, and with maxbytes=m>0 EVERY history (413s caught and reading '
               'continued included) hands at most m bytes to the application (no server-limit event assumed for that '
-              'last theorem). Around the reader (C05Process): body not processed iff process_request_body is off or '
+              'last theorem); under any plan of transient faults of the raw stream the offset stays <= Content-Length and '
+              'the accounting invariant holds (C05F_*). Around the reader (C05Process): body not processed iff process_request_body is off or '
               'the method is not in methods_with_bodies; 411 iff processed and neither Content-Length nor '
               'Transfer-Encoding; otherwise SizedReader(length, maxbytes, bufsize, has_trailers) with length = '
               'int(Content-Length) unless Transfer-Encoding mentions chunked (decimal numerals proved, junk -> None), '
@@ -125,7 +128,8 @@ RULE = ('random op histories (1..14 ops over read/read(n)/readline/readline(n)/r
         'x body (newline-dense / sparse / newline-free / all-LF, 0..200 KiB, mostly < 64 bytes so that buffer '
         'boundaries are dense) x declared length (exact, shorter incl. 0/1/n-1 with pipelined bytes behind, longer, '
         'absent) x bufsize (1..65536) x socket fragmentation (whole, 1-byte, random) x maxbytes (None, 0, <, =, > '
-        'available) x optional MaxSizeExceeded / connection-reset event, each run on SizedReader directly or through '
+        'available) x optional MaxSizeExceeded event or a plan of TRANSIENT faults of the raw stream (timeout / reset at the '
+        'k-th next read, the application reads on), each run on SizedReader directly or through '
         'in-process WSGI; second part: Content-Length texts x Transfer-Encoding; requests (method x '
         'methods_with_bodies / process_request_body / request.body.maxbytes|bufsize|length at three config levels x '
         'Content-Length absent/empty/valid/invalid x Transfer-Encoding x Trailer x Content-Type); finish() over trailer '
@@ -181,9 +185,23 @@ class MaxSizeExceeded(Exception):
     """Same class NAME as cheroot.errors.MaxSizeExceeded (SizedReader matches on the name)."""
 
 
+import socket as _socket
+FAULTS = [_socket.timeout, ConnectionResetError, OSError, BrokenPipeError]
+FAULT_NAMES = {c.__name__ for c in FAULTS} | {'TimeoutError', 'timeout'}
+
+
+def _is_fault(r):
+    return r.startswith('x:') and r[2:].split('+')[0] in FAULT_NAMES
+
+
 class FragStream:
-    def __init__(self, data, frag, fail_at=None, fail_kind='max'):
+    def __init__(self, data, frag, fail_at=None, fail_kind='max', faults=None):
         self.fail_kind = fail_kind
+        # transient faults of the connection: the k-th next read() raises (timeout, reset, ...), once; then the
+        # next countdown of the plan is armed
+        self.faults = list(faults or [])
+        self.fault_in = self.faults.pop(0) if self.faults else None
+        self.nfaults = 0
         self.data = data
         self.pos = 0
         self.frag = list(frag)
@@ -193,6 +211,12 @@ class FragStream:
         self.req_end = 0        # furthest offset any read() call asked for
 
     def read(self, n=None):
+        if self.fault_in is not None:
+            if self.fault_in == 0:
+                self.fault_in = self.faults.pop(0) if self.faults else None
+                self.nfaults += 1
+                raise FAULTS[self.nfaults % len(FAULTS)]('transient failure of the connection')
+            self.fault_in -= 1
         if self.fail_at is not None:
             if self.fail_at == 0:
                 if self.fail_kind == 'io':
@@ -228,6 +252,7 @@ def _norm(case):
     c.setdefault('bufsize', 8192)
     c.setdefault('frag', [])
     c.setdefault('fail_at', None)
+    c.setdefault('faults', None)
     c.setdefault('via', 'direct')
     return c, body
 
@@ -329,15 +354,15 @@ def _do_ops(ent, ops, stop_at_error):
             except Exception:
                 r += '+'
         outs.append(r)
-        if stop_at_error and not _is_ok(r):
-            break
+        if stop_at_error and not _is_ok(r) and not _is_fault(r):
+            break                   # (after a transient failure of the connection the handler reads on)
     return outs
 
 
 def run_direct(case):
     from cherrypy import _cpreqbody
     c, body = _norm(case)
-    fp = FragStream(body, c['frag'], c['fail_at'], c.get('fail_kind', 'max'))
+    fp = FragStream(body, c['frag'], c['fail_at'], c.get('fail_kind', 'max'), c['faults'])
     rd = _cpreqbody.SizedReader(fp, c['length'], c['maxbytes'], bufsize=c['bufsize'])
     ent = _cpreqbody.Entity.__new__(_cpreqbody.Entity)
     ent.fp = rd
@@ -383,7 +408,7 @@ def _app(maxbytes, bufsize):
 
 def run_wsgi(case):
     c, body = _norm(case)
-    fp = FragStream(body, c['frag'], c['fail_at'], c.get('fail_kind', 'max'))
+    fp = FragStream(body, c['frag'], c['fail_at'], c.get('fail_kind', 'max'), c['faults'])
     env = {'REQUEST_METHOD': 'POST', 'PATH_INFO': '/', 'SCRIPT_NAME': '', 'QUERY_STRING': '',
            'SERVER_NAME': 'x', 'SERVER_PORT': '80', 'SERVER_PROTOCOL': 'HTTP/1.1', 'HTTP_HOST': 'x',
            'wsgi.version': (1, 0), 'wsgi.url_scheme': 'http', 'wsgi.input': fp,
@@ -454,6 +479,8 @@ def oracle(case, obs):
     pos = 0                 # cursor
     delivered = 0           # bytes handed to the application: returned, written to a sink, yielded
     errored = False
+    gap = False             # a transient failure of the connection aborted an operation: what that call had read
+                            # is lost; from then on: still in order, never twice, never beyond the declared length
 
     def bound(op):
         if m is not None and delivered > m:
@@ -465,12 +492,42 @@ def oracle(case, obs):
     for op, r in zip(c['ops'], obs['outs']):
         name, _, arg = op.partition(':')
         n = int(arg) if arg else None
+        if not _is_ok(r) and c['faults'] and _is_fault(r) and not errored:
+            st, part = _split_err(r)
+            p = avail.find(part, pos) if gap else (pos if avail[pos:pos + len(part)] == part else -1)
+            if p < 0:
+                bad.append(('%s was aborted by %s after delivering %r..., which is not body data in order (offset '
+                            '%d)' % (op, st, part[:24], pos), 'order:partial_' + name))
+                break
+            pos = p + len(part)
+            delivered += len(part)
+            gap = True
+            if not bound(op):
+                break
+            continue
+        if gap and _is_ok(r) and not errored:
+            if r == 'stop':
+                got = b''
+            elif r[:2] in ('l:', 'y:'):
+                got = b''.join(bytes.fromhex(x) for x in r[2:].split('/')) if r[2:] else b''
+            else:
+                got = bytes.fromhex(r[2:])
+            p = avail.find(got, pos)
+            if p < 0:
+                bad.append(('after a transient failure of the connection %s delivered %r..., which does not occur in '
+                            'the declared body behind offset %d' % (op, got[:24], pos), 'order:after_fault'))
+                break
+            pos = p + len(got)
+            delivered += len(got)
+            if not bound(op):
+                break
+            continue
         if not _is_ok(r):
             st, part = _split_err(r)
             delivered += len(part)
             if not errored:
                 # what a sink received / the iterator yielded before the refusal is still body data, in order
-                if avail[pos:pos + len(part)] != part:
+                if (avail.find(part, pos) < 0) if gap else (avail[pos:pos + len(part)] != part):
                     bad.append(('%s raised %s after delivering %r..., which is not the next %d bytes of the body '
                                 '(offset %d: %r...)' % (op, st, part[:24], len(part), pos, avail[pos:pos + 24]),
                                 'order:partial_' + name))
@@ -563,7 +620,7 @@ def oracle(case, obs):
             bad.append(('asked the connection for bytes up to offset %s, declared length %d'
                         % (obs['req_end'], c['length']), 'overread_request'))
     # a longer body read to the end must have been refused
-    if not errored and len(obs['outs']) == len(c['ops']):
+    if not errored and not gap and len(obs['outs']) == len(c['ops']):
         drained = any(o in ('read', 'readfp', 'readlines', 'rif', 'rifmk', 'iter') for o in c['ops'][-1:])
         if drained and pos != len(avail):
             bad.append(('history ends with %s but only %d of %d bytes were delivered'
@@ -593,7 +650,8 @@ def model_line(case, nops=None):
     ops = c['ops'] if nops is None else c['ops'][:nops]
     ops = [o.replace('rifmk', 'rif').replace('nextm', 'next') for o in ops]
     fail_at = None if c.get('fail_kind') == 'io' else c['fail_at']
-    return ' '.join([_opt(c['length']), _opt(c['maxbytes']), str(c['bufsize']), _opt(fail_at),
+    fa = ('t' + '.'.join(map(str, c['faults']))) if c['faults'] else _opt(fail_at)
+    return ' '.join([_opt(c['length']), _opt(c['maxbytes']), str(c['bufsize']), fa,
                      body.hex() or '-', ','.join(map(str, c['frag'])) or '-', ','.join(ops) or '-'])
 
 
@@ -688,6 +746,11 @@ def gen_case(rng, big=False):
         frag = [rng.choice([0, 0, 1, 2, 3, 6, 15, 100, 5000]) for _ in range(rng.choice([3, 10, 40, 200]))]
     fail_at = rng.choice([0, 1, 2, 3, 5]) if rng.random() < 0.05 else None
     fail_kind = 'io' if fail_at is not None and rng.random() < 0.25 else 'max'
+    faults = None
+    if fail_at is None and rng.random() < 0.14:
+        # transient failures of the connection at the k-th next read() of the raw stream - first, second or later
+        # chunk of whatever operation is running - after which the application reads on
+        faults = [rng.choice([0, 0, 1, 1, 1, 2, 2, 3, 5, 8]) for _ in range(rng.choice([1, 1, 2, 3]))]
     nops = rng.randint(1, 14 if not big else 6)
     maxline = max(len(x) for x in body.split(b'\n')) + 1
     sizes = [1, 1, 2, 3, 4, 5, 7, max(1, bufsize - 1), bufsize, bufsize + 1, 2 * bufsize + 1, max(1, avail - 1),
@@ -730,6 +793,11 @@ def gen_case(rng, big=False):
     via = 'wsgi' if rng.random() < 0.3 else 'direct'
     case = {'body_hex': body.hex(), 'length': length, 'maxbytes': maxbytes, 'bufsize': bufsize, 'frag': frag,
             'fail_at': fail_at, 'ops': ops, 'via': via}
+    if faults:
+        case['faults'] = faults
+        if len(ops) < 4:
+            case['ops'] = ops + [rng.choice(['read:%d' % rng.choice(sizes), 'readline', 'next', 'readfp:%d' % rng.choice(sizes)])
+                                 for _ in range(3)] + ['read']
     if fail_kind == 'io':
         case['fail_kind'] = 'io'    # the stream fails with something that is not the size limit: propagated
     if via == 'wsgi' and rng.random() < 0.04:
@@ -763,7 +831,8 @@ def _kind(op):
 
 def case_key(case):
     c, _ = _norm(case)
-    return json.dumps([c['body_hex'], c['length'], c['maxbytes'], c['bufsize'], c['fail_at'], c.get('fail_kind'), c['ops'],
+    return json.dumps([c['body_hex'], c['length'], c['maxbytes'], c['bufsize'], c['fail_at'], c.get('fail_kind'),
+                       c['faults'], c['ops'],
                        c['via'], bool(c.get('nolen411')), len(c['frag']), c['frag'][:8]])
 
 
@@ -796,6 +865,11 @@ def check_cases(ctx, cases, compare=True, stats=True):
             ctx.count('bufsize:%s' % ('1' if c['bufsize'] == 1 else '2-8' if c['bufsize'] <= 8 else '16-64'
                                       if c['bufsize'] <= 64 else 'big'))
             ctx.count('frag:' + ('whole' if not c['frag'] else '1byte' if set(c['frag']) == {0} else 'random'))
+            if c['faults']:
+                nf = sum(1 for o in obs['outs'] if _is_fault(o))
+                ctx.count('transient_faults_hit:%d' % nf)
+                if nf and any(_is_ok(o) and len(o) > 2 for o in obs['outs'][[_is_fault(o) for o in obs['outs']].index(True):]):
+                    ctx.count('transient_fault:data_delivered_afterwards')
             for op, o in zip(c['ops'], obs['outs']):
                 ctx.count('op:' + _kind(op))
                 ctx.count('result:' + ('data' if o.startswith('b:') and len(o) > 2 else 'empty' if o == 'b:'
@@ -812,6 +886,11 @@ def check_cases(ctx, cases, compare=True, stats=True):
             ctx.compared()
             m = parse_model(model[i])
             impl = {'outs': obs['outs'], 'off': obs['off']}
+            if c['faults']:
+                avail_n = len(body if c['length'] is None else body[:c['length']])
+                if c['maxbytes'] and avail_n > c['maxbytes']:
+                    continue        # limit and fault in one history: the model's fault plan is exact only without
+                impl['outs'] = [('e413' + o[2:][len(o[2:].split('+')[0]):]) if _is_fault(o) else o for o in impl['outs']]
             if c.get('fail_kind') == 'io':
                 # the model has no such event: compare what happened before it
                 k = next((j for j, o in enumerate(impl['outs']) if o.startswith('x:ConnectionResetError')), None)
